@@ -18,7 +18,10 @@ PoolText == <<
   "{:a nil}", "{:b nil}", "{:a 1 :b 2}", "(assoc {:b 2} :a 1)", "{\"a\" 1}", "{:a [1]}", "{:a (list 1)}",
   "{:a {:b nil}}", "{:a {:c nil}}", "{:a {}}", "{:a nil :b nil}", "{:a nil :c nil}",
   "#{:a}", "#{\"a\"}", "(set [:a])", "(hash-set :a :b)", "#{:b :a}", "(conj #{:a} :b)", "#{:a :b :c}", "#{:a :c}",
-  "(list nil)", "[nil]", "(list false)", "'(a)", "['a]", "[:a]", "[\"a\"]", "(list \"a\")", "[0]", "[\"\"]", "[()]", "[[]]" >>
+  "(list nil)", "[nil]", "(list false)", "'(a)", "['a]", "[:a]", "[\"a\"]", "(list \"a\")", "[0]", "[\"\"]", "[()]", "[[]]",
+  \* integers that differ only below the precision of a 64-bit float (2^53 + 1, 2^53; two timestamps 1 ns apart)
+  "9007199254740993", "9007199254740992", "170000000000000001", "170000000000000000", "[9007199254740993]",
+  "-9007199254740993", "(list 9007199254740992)" >>
 
 Pool == [k \in 1..Len(PoolText) |-> Parse(PoolText[k])]
 NP == Len(PoolText)
